@@ -4,32 +4,15 @@
    behaviour. *)
 From PyRTL Require Import Pass.Lower Pass.RewriteSound Pass.GateSound Pass.LowerSound Pass.LowerPost
   Pass.LowerTheorems.
+From PyRTL Require Import Pass.LowerHyps.
 From PyRTL Require Import Gen.LowerRules Netlist.Sanity.
 From Coq Require Import ZifyBool.
-
-Definition sumwidths (nl : netlist) (l : list wid) : Z := fold_right Z.add 0 (map (width_of nl) l).
 
 Definition lower_net_ok (nl : netlist) (n : net) : Prop :=
   gate_net_ok nl n /\ (nop n = OpConcat -> width_of nl (ndest n) <= sumwidths nl (nargs n)).
 
 Definition lower_ok (nl : netlist) : Prop :=
   widths_nonneg nl /\ Forall (lower_net_ok nl) (nets nl).
-
-(* the decidable form evaluated by the harness on every design *)
-Definition lower_net_okb (nl : netlist) (n : net) : bool :=
-  match nop n with
-  | OpAnd | OpOr | OpXor | OpNand =>
-      match nargs n with
-      | [a; b] => (width_of nl a =? width_of nl b) && (0 <=? width_of nl (ndest n))
-                  && (width_of nl (ndest n) <=? width_of nl a)
-      | _ => false
-      end
-  | OpConcat => width_of nl (ndest n) <=? sumwidths nl (nargs n)
-  | _ => true
-  end.
-
-Definition lower_okb (nl : netlist) : bool :=
-  forallb (fun x => 0 <=? wwidth x) (wires nl) && forallb (lower_net_okb nl) (nets nl).
 
 Lemma lower_okb_ok nl : lower_okb nl = true -> lower_ok nl.
 Proof.
